@@ -98,14 +98,18 @@ func c14Explore(src *choice.Src) *core.Result {
 			spec.Height = src.Range(1, 8)
 		}
 		spec.NoSumDB = c14NoSumLists[src.Weighted(5, 2, 2, 2, 1, 1, 1, 1)]
-		ntasks := src.Range(2, 4)
-		if totalTasks+ntasks > 8 {
+		maxPer, maxTotal, maxLookups := 4, 8, 3
+		if !core.Quick() {
+			maxPer, maxTotal, maxLookups = 6, 12, 4 // the thorough tier also runs larger crowds
+		}
+		ntasks := src.Range(2, maxPer)
+		if totalTasks+ntasks > maxTotal {
 			ntasks = 2
 		}
 		totalTasks += ntasks
 		for t := 0; t < ntasks; t++ {
 			var reqs []lookupReq
-			for q, nq := 0, src.Range(1, 3); q < nq; q++ {
+			for q, nq := 0, src.Range(1, maxLookups); q < nq; q++ {
 				var m sw.ModVer
 				switch src.Weighted(12, 1, 1) {
 				case 0:
